@@ -296,8 +296,11 @@ func (j *job) run(watchdog time.Duration) {
 		"-metadir", meta,
 		"-config", "MC.cfg", j.Module)
 	heap := "-Xmx2g"
-	if j.Kind != "main" {
-		heap = "-Xmx768m"
+	if j.Kind == "probe" {
+		// short-lived process: C1 only, small heap - start-up dominates
+		heap = "-Xmx512m -XX:TieredStopAtLevel=1"
+	} else if j.Kind != "main" {
+		heap = "-Xmx1g"
 	}
 	jopts := fmt.Sprintf("%s -XX:ParallelGCThreads=2 -XX:CICompilerCount=2 -Djava.io.tmpdir=%s", heap, tmp)
 	j.Cmd = fmt.Sprintf("cd <dir with %s + MC.cfg> && JAVA_TOOL_OPTIONS=%q %s %s", j.Module, jopts, tlcCommand()[0], strings.Join(args, " "))
